@@ -427,8 +427,17 @@ func ParentMain(id, tier string, seed int64, self string) int {
 			os.RemoveAll(work)
 		}
 	}()
-	scratch := filepath.Join(work, "scratch")
-	os.MkdirAll(scratch, 0755)
+	// Scratch databases on real file systems: tmpfs when available (fsync is free there; the code paths under
+	// test - pread/pwrite/mmap/ftruncate/flock - are the same), disk scratch is offered separately for big files.
+	diskScratch := filepath.Join(work, "scratch")
+	os.MkdirAll(diskScratch, 0755)
+	scratch := diskScratch
+	if st, err := os.Stat("/dev/shm"); err == nil && st.IsDir() {
+		if d, err := os.MkdirTemp("/dev/shm", "pvh-"+id+"-"); err == nil {
+			scratch = d
+			defer os.RemoveAll(d)
+		}
+	}
 	p := &Parent{Check: ck, Tier: tier, Seed: seed, WorkDir: work, Stats: map[string]int64{}, Distinct: map[string]struct{}{}}
 	timeout := 30 * time.Minute
 	if tier == "thorough" {
@@ -449,7 +458,7 @@ func ParentMain(id, tier string, seed int64, self string) int {
 				"--shard", strconv.Itoa(i), "--of", strconv.Itoa(procs), "--out", outPath)
 			cmd.Stdout = logf
 			cmd.Stderr = logf
-			cmd.Env = append(os.Environ(), "PVH_SCRATCH="+scratch, "TMPDIR="+scratch,
+			cmd.Env = append(os.Environ(), "PVH_SCRATCH="+scratch, "PVH_SCRATCH_DISK="+diskScratch, "TMPDIR="+scratch,
 				"GORACE=halt_on_error=0 log_path="+filepath.Join(work, fmt.Sprintf("race-%d", i)),
 				"GOTRACEBACK=all")
 			cmd.SysProcAttr = &syscall.SysProcAttr{Setpgid: true}
